@@ -5,7 +5,7 @@
    An execution is a list of events `evs` every one of which commits: `exec cfg (init cfg) evs = Some s`.
    cfg is arbitrary: any number of servers and clients, any buffer size, per-link FIFO or bag delivery (where a theorem
    needs FIFO it says so), ExploreFail on or off. Crashes, message loss, timeouts, failure-detector outputs are events. *)
-From PGV Require Import C08.Model C08.Proofs1 C08.Proofs2.
+From PGV Require Import C08.Model C08.Proofs1 C08.Proofs2 C08.Proofs3.
 
 (* ElectionSafety == \lnot (\E i, j \in ServerSet: i /= j /\ currentTerm[i] = currentTerm[j]
                                                      /\ state[i] = Leader /\ state[j] = Leader) *)
@@ -16,6 +16,18 @@ Theorem election_safety : forall cfg evs s,
                  s_role (srv s i) = Leader /\ s_role (srv s j) = Leader).
 Proof. intros cfg evs s H. exact (election_safety_lemma cfg s (exec_reachable cfg evs s H)). Qed.
 Print Assumptions election_safety.
+
+(* LogMatching == \A i, j \in ServerSet: \A k \in 1..Min({Len(log[i]), Len(log[j])}):
+                    log[i][k].term = log[j][k].term => SubSeq(log[i], 1, k) = SubSeq(log[j], 1, k)
+   (holds for bag delivery as well: no hypothesis on cfg_fifo) *)
+Theorem log_matching : forall cfg evs s,
+  exec cfg (init cfg) evs = Some s ->
+  forall i j k, is_server cfg i = true -> is_server cfg j = true ->
+    1 <= k -> k <= Nat.min (List.length (s_log (srv s i))) (List.length (s_log (srv s j))) ->
+    term_at (s_log (srv s i)) k = term_at (s_log (srv s j)) k ->
+    firstn k (s_log (srv s i)) = firstn k (s_log (srv s j)).
+Proof. intros cfg evs s H. exact (log_matching_lemma cfg s (exec_reachable cfg evs s H)). Qed.
+Print Assumptions log_matching.
 
 (* LeaderAppendOnly == [][\A i \in ServerSet: (state[i] = Leader /\ state'[i] = Leader)
                               => log[i] = SubSeq(log'[i], 1, Len(log[i]))]_vars      (every step of every execution) *)
@@ -77,3 +89,22 @@ Theorem spec_leader_completeness_as_written_refuted :
   exists evs s, exec ex_cfg (init ex_cfg) evs = Some s /\ leader_completeness_spec_b ex_cfg s = false.
 Proof. exists ex_evs. eexists. split; [vm_compute; reflexivity | vm_compute; reflexivity]. Qed.
 Print Assumptions spec_leader_completeness_as_written_refuted.
+
+(* Under the spec's own network discipline (mapping macro ReliableFIFOLink reads ANY element of the bag) the invariants fail:
+   AppendEntries accept truncates unconditionally (log := SubSeq(log, 1, prevLogIndex) \o mentries), so an older heartbeat
+   delivered after a newer AppendEntries removes an acknowledged and committed entry, and the next leader lacks it.
+   Outside the property's quantifier (per-link FIFO) and outside TLC's bounds in raftkvs.cfg (MaxTerm 3, MaxCommitIndex 2);
+   replayed on the generated Go with the bag network by the check (corpus/C08/bag_reorder.json). *)
+Definition bag_cfg := mkConfig 3 1 10 false true true.
+Definition bag_evs : list event := [
+ ERVTimeout 1 true 0; ERVSend 1 0 true; ERVSend 1 0 true; ERVSend 1 1 true; ERVSend 1 0 true; EServerLoop 2 0; EHandleMsg 2 0 true;
+ EServerLoop 1 0; EHandleMsg 1 0 true; EBecomeLeader 1 0; EAELoop 1 0; EAESend 1 1 true; EAESend 1 0 true; EAESend 1 1 true;
+ EAESend 1 0 true; EClientLoop 19 (mkReq CPut 1 1); EClientSnd 19 1 0 true; EServerLoop 1 0; EHandleMsg 1 0 true; EAELoop 1 0;
+ EAESend 1 1 true; EAESend 1 0 true; EAESend 1 1 true; EAESend 1 0 true; EServerLoop 2 1; EHandleMsg 2 0 true; EServerLoop 1 0;
+ EHandleMsg 1 0 true; EAdvance 1; EApply 1; EServerLoop 2 0; EHandleMsg 2 0 true; ERVTimeout 2 true 0; ERVSend 2 1 true;
+ ERVSend 2 0 true; ERVSend 2 0 true; ERVSend 2 0 true; EServerLoop 3 0; EHandleMsg 3 0 true; EServerLoop 2 0; EHandleMsg 2 0 true;
+ EBecomeLeader 2 0].
+Theorem bag_network_refuted :
+  exists evs s, cfg_fifo bag_cfg = false /\ exec bag_cfg (init bag_cfg) evs = Some s /\ leader_completeness_b bag_cfg s = false.
+Proof. exists bag_evs. eexists. split; [reflexivity|]. split; vm_compute; reflexivity. Qed.
+Print Assumptions bag_network_refuted.
